@@ -219,6 +219,19 @@ CLAIMED["C13"] = dict(
          "multisets of values; models that fail in the fresh interpreter are not judged; <=9 operations.",
     design_ref="DESIGN.md §4 C13", engine="hypothesis-stateful")
 
+CLAIMED["C15"] = dict(
+    technique="Hypothesis-generated models defined five ways (Python, harness-written YAML, to_yaml/from_yaml round trip, "
+              "`base:` chains in YAML, update_template chains in Python) compared pointwise; equation edits against a "
+              "regex whole-identifier oracle",
+    text="Every generated spec (identifiers containing one another, shared operators, per-node overrides, hierarchy, "
+         "same-named node templates) must give the same y0, arguments, vector field and vectorized rows through all five "
+         "definitions; derived templates are produced by inverting an edit (rename+replace, extra term+remove, missing "
+         "summand+append, missing equation+add, changed defaults, smaller circuit+nodes/edges). parser.replace and "
+         "OperatorTemplate.update_template(equations=...) are compared with a regex oracle on generated equation strings.",
+    note="Edge templates with operators are not generated; vectorized rows are compared only when the Python definition "
+         "follows the reference recurrence; shapes of the listed C01/C05 findings are excluded and counted.",
+    design_ref="DESIGN.md §4 C15")
+
 NOT_YET = {}
 
 
